@@ -117,6 +117,21 @@ class Client:
     def notify(self, method, params):
         self._send({"jsonrpc": "2.0", "method": method, "params": params})
 
+    def notify_burst(self, msgs):
+        """several notifications in ONE write: they reach the server back to back"""
+        if self.dead or self.proc.poll() is not None:
+            raise ServerDied("server process exited with status %s" % self.proc.poll())
+        buf = b""
+        for (method, params) in msgs:
+            data = json.dumps({"jsonrpc": "2.0", "method": method, "params": params}).encode("utf-8")
+            buf += b"Content-Length: %d\r\n\r\n" % len(data) + data
+        try:
+            self.proc.stdin.write(buf)
+            self.proc.stdin.flush()
+        except (BrokenPipeError, OSError):
+            self.dead = True
+            raise ServerDied("broken pipe: server process exited with status %s" % self.proc.poll())
+
     def request(self, method, params, timeout=None):
         rid = self.nextid
         self.nextid += 1
